@@ -1,3 +1,4 @@
+\* sensitivity: the plausible bug Dev = {CorsOnlyExisting} MUST violate an invariant
 CONSTANTS
   Pats = {"/a", "/*"}
   HKinds = {"plain"}
